@@ -131,6 +131,12 @@ E3_SCEN = {
     "choice3: StartStage(X)||StartStage(Y)||StartStage(Z)": ("choice3", ["StartStage:X", "StartStage:Y", "StartStage:Z"], [1, 1, 1], False),
     "mutex3: StartStage(X)||StartStage(Y)||StartStage(Z)": ("mutex3", ["StartStage:X", "StartStage:Y", "StartStage:Z"], [1, 1, 1], False),
     "choice2 + retention sweep": ("choice2", ["StartStage:X", "StartStage:Y"], [1, 1], True),
+    "choice2: X runs to completion (its CancelStage(Y) still queued) || StartStage(Y) + retention sweep": (
+        "choice2", ["StartStage:X", "StartStage:Y"],
+        [["StartStage:Y"], ["StartStage:X", "StartTask:X", "RunTask:X", "CompleteTask:X", "CompleteStage:X"]], True),
+    "mutex2: holder X runs to completion || StartStage(Y) + retention sweep": (
+        "mutex2", ["StartStage:X", "StartStage:Y"],
+        [["StartStage:Y"], ["StartStage:X", "StartTask:X", "RunTask:X", "CompleteTask:X", "CompleteStage:X"]], True),
     "mutex2 + retention sweep": ("mutex2", ["StartStage:X", "StartStage:Y"], [1, 1], True),
 }
 
